@@ -2977,7 +2977,14 @@ def transform_pseudo_instructions(items, constants, labels):
             env = ChainMap(constants, labels)
             value = imm.eval(position, env, item.line)
             value = c_int32(value).value  # signed imm
-            if value >= (-2**11) and value <= (2**11 - 1):
+            # a value that depends on a label may still change while this and
+            # later items shrink: only a literal can be committed to one inst
+            try:
+                imm.eval(position, constants, item.line)
+                literal = True
+            except AssemblerError:
+                literal = False
+            if literal and value >= (-2**11) and value <= (2**11 - 1):
                 inst = ITypeInstruction(item.line, 'addi', rd=rd, rs1='x0', imm=Lo(imm))
                 # shrink all subsequent labels by 4
                 new_labels = {k: v - 4 for k, v in labels.items() if v > position}
